@@ -49,11 +49,11 @@ def enum_tables(T, limit=MAX_LANG):
         S = stack[0]
         for P, alts in rules.get(S, []):
             for args, w in alts:
-                rec(list(args) + stack[1:], steps + [(S, P, tuple(args))], p * Fraction(w[0], w[1]), start)
+                rec(list(args) + stack[1:], steps + [(S, P, tuple(args))], p * rat(w), start)
 
     try:
         for s, w in T["starts"]:
-            rec([s], [], Fraction(w[0], w[1]), s)
+            rec([s], [], rat(w), s)
     except (Big, RecursionError):
         return None
     return out
@@ -484,6 +484,11 @@ def fail(kind, what, detail=""):
 
 
 def rat(w):
+    """the exact value of the float handed to the implementation for the weight [num, den]"""
+    return Fraction(int(w[0]) / int(w[1]))
+
+
+def rat_exact(w):
     return Fraction(int(w[0]), int(w[1]))
 
 
@@ -752,7 +757,7 @@ def check(case, M):
             if not g:
                 continue
             ans = M.ask([Sym("c08.frag"), gwire, gw[fi], K])
-            spec = sorted((tuple((int(str(a)[1:]), int(b)) for a, b in wd), rat(p)) for wd, p in ans[0])
+            spec = sorted((tuple((int(str(a)[1:]), int(b)) for a, b in wd), rat_exact(p)) for wd, p in ans[0])
             m = sum((probs[wd] for wd in own[fi]), Fraction(0))
             mine = sorted((wd, probs[wd] / m) for wd in own[fi]) if m else None
             if mine is not None and spec != mine:
@@ -761,7 +766,7 @@ def check(case, M):
                 failures.append(fail("corr", "the model of __pcfg_from__ fails on a group of the implementation"))
                 continue
             fwf, fnorm, nrules, mds, nd1 = ans[1]
-            model = sorted((tuple((int(str(a)[1:]), int(b)) for a, b in wd), rat(p)) for wd, p in mds)
+            model = sorted((tuple((int(str(a)[1:]), int(b)) for a, b in wd), rat_exact(p)) for wd, p in mds)
             if int(nd1) != len(mds):
                 raise RuntimeError("fuel too small for the model fragment")
             if fi < len(frag_words) and frag_words[fi] is not None:
@@ -771,7 +776,7 @@ def check(case, M):
                     failures.append(fail("corr", "fragment grammar of the implementation and of the model have different derivations/weights",
                                          f"group {fi}: impl {len(impl)} model {len(model)}"))
             same = len(spec) == len(model) and all(a[0] == b[0] and abs(float(a[1]) - float(b[1])) <= TOL for a, b in zip(spec, model))
-            if (model != spec) if (exact and fnorm == "1") else (not same):
+            if (model != spec) if (exact and norm) else (not same):
                 failures.append(fail("corr", "model fragment differs from the specification (cells of the group, renormalised)", f"group {fi}"))
     elif not hooked:
         tags.append("not-hooked")
